@@ -84,7 +84,13 @@ MoreCases ==
     UNION {{Mk("section", ms, Normals[j], dn, Motions[t]) @@ [side |-> 1] : dn \in Offsets(ms.vpos, Normals[j])}
            : ms \in {m \in Meshes : m.name \in {"box", "tetra"}}, j \in {1, 4, 5}, t \in 2..4}
 
-Init == case \in Cases \cup SmallCases \cup SolidCases \cup MoreCases
+\* scenes far from the origin: after the motion everything is carried a further 2^20 lattice units away (at scale 2^-10: parts of
+\* a few thousandths at coordinates of a thousand); with the default curve tolerance nothing may be merged, dropped or mis-measured
+FarCases ==
+    UNION {{Mk(op, ms, Normals[j], dn, Motions[t]) @@ [sc |-> k, far |-> V3(1048576, -524288, 262144)]
+               : dn \in Offsets(ms.vpos, Normals[j]), op \in {"section", "split"}, k \in {0, -10}}
+           : ms \in {m \in Meshes : m.name \in {"box", "tetra"}}, j \in {1, 4, 6}, t \in 1..2}
+Init == case \in Cases \cup SmallCases \cup SolidCases \cup MoreCases \cup FarCases
 Next == UNCHANGED case
 Spec == Init /\ [][Next]_case
 Emit == PrintT(<<"CASE", ToJson(case)>>)
